@@ -143,9 +143,7 @@ func cmdCheck(args []string) int {
 			sem <- struct{}{}
 			defer func() { <-sem }()
 			r := w.Generate(h)
-			for _, o := range r.Obls {
-				o.Prepare()
-			}
+			r.PrepareAll(180)
 			results[i] = r
 		}(i, h)
 	}
